@@ -314,10 +314,22 @@ def tripCountMayWrap (t : TFlags) (isNEQ isUpCounting isInclusive : Bool) (iv : 
         let over : Int := if isInclusive then d else d - 1
         if isUpCounting then decide (ivHi t < limitC + over) else decide (limitC - over < ivLo t)
 
+/-- `narrowBoundMayWrap` (fix "no trip count for a narrow counter whose bounds are computed"): a
+    start or limit of a counter narrower than 64 bits must be a value of the counter's type taken as
+    it is - a constant inside the range, or an opaque value; an arithmetic expression can leave the
+    range (`x + 100` on a uint8) -/
+def narrowBoundMayWrap (t : TFlags) (s : SCEV) : Bool :=
+  if !t.isInteger || decide (64 ≤ ivBits t) then false else
+  match s with
+  | .const c => decide (c < ivLo t) || decide (ivHi t < c)
+  | .unknown _ _ => false
+  | _ => true
+
 /-- what `deriveTripCount` stores once it has found the IV (`t` = flag word of its phi's type), the
     limit and the flags (`none` = the loop's TripCount field is left as it was) -/
 def decideTripCount (t : TFlags) (isNEQ isUp isInc : Bool) (iv : InductionVariable) (limit : SCEV) :
     Option SCEV :=
+  if narrowBoundMayWrap t iv.start || narrowBoundMayWrap t limit then some (.unknown none false) else
   match directionCheck isNEQ isUp isInc iv limit with
   | .done tc => some tc
   | .proceed =>
